@@ -54,6 +54,8 @@ def programs(tier, pid):
     P5 = mkprog("P5", [T("C", deps=["B"]), T("B", lit=["b.txt"], deps=["A"]), T("A", lit=["a.txt"])], ["a.txt", "b.txt"])
     P6 = mkprog("P6", [T("M", lit=["a.txt"], glob=["*.x", "sub/*.x"], cand=["x1.x", "sub/y.x"])], ["a.txt", "x1.x", "sub/y.x", ".h.x"],
                 init={"a.txt": 0, "x1.x": 0, "sub/y.x": 9, ".h.x": 0})
+    P8 = mkprog("P8", [T("M", lit=["a.txt"], glob=["*.txt"], cand=["a.txt", "b.txt"]), T("N")], ["a.txt", "b.txt"],
+                init={"a.txt": 0, "b.txt": 9})          # the same file named twice (literally and by the glob)
     P7 = mkprog("P7", [T("A", lit=["a.txt"]), T("B", lit=["b.txt"]), T("D", lit=["a.txt", "b.txt"], deps=["A", "B"])], ["a.txt", "b.txt"])
     if pid == "C10":
         # kill points multiply the alphabet: smaller programs
@@ -70,11 +72,11 @@ def programs(tier, pid):
             p["failsets"] = [[]] + [[n] for n in names]
         return ps
     if tier == "quick":
-        ps = [P1, P5, P4] if pid == "C14" else [P1, P3, P4, P2]
+        ps = [P1, P5, P4] if pid == "C14" else [P1, P3, P4, P2, P8]
     else:
         for p in (P1, P3, P5, P7):
             p["ncontents"] = 3
-        ps = [P1, P2, P3, P4, P5, P6, P7]
+        ps = [P1, P2, P3, P4, P5, P6, P7, P8]
         for p in ps:
             p["reps"] = 4
     return ps
